@@ -104,10 +104,14 @@ box('stale_never_matches', ['TAKE(stale)', 'TAKE(id0)'], 'vf_check(won[0]==0, 3)
 box('stale_vs_recycle', ['TAKE(stale)', 'TAKE(id0);EMPLACE_NEW(43);TAKE(idnew)', 'TAKE(stale)'], 'vf_check(won[0]==0 && won[2]==0, 3)')
 
 APX = ['babylon/logging/async_file_appender.cpp', 'babylon/logging/file_object.cpp', 'babylon/logging/log_entry.cpp', 'babylon/reusable/page_allocator.cpp']
-def apx(name, init, ts, final, **kw):
+def apx(name, init, ts, final, qcap_=1, **kw):
     kw.setdefault('opts', {'loop:keep_writing': '4'}); kw.setdefault('tiers', ('thorough',)); kw.setdefault('timeout', 5400)
-    S('ap_' + name, 'logging/ap.cpp', {'assert': 'C20'}, defs=['VF_INIT=' + init] + ['VF_T%d=%s' % (i, t) for i, t in enumerate(ts)] + ['VF_FINAL=' + final], extra=APX, **kw)
+    S('ap_' + name, 'logging/ap.cpp', {'assert': 'C20'}, defs=['VF_QCAP=%d' % qcap_, 'VF_INIT=' + init] + ['VF_T%d=%s' % (i, t) for i, t in enumerate(ts)] + ['VF_FINAL=' + final], extra=APX, **kw)
 S('ap_seq_sizes', 'logging/ap_seq.cpp', {'assert': 'C20'}, extra=APX, models=['sc'], bound=12)
+# the queue hand-over of write() alone: two logging threads, nobody drains; both entries must be queued, intact
+apx('two_writes_enqueue', 'ent[0] = make("ab", 2); ent[1] = make("cd", 2); writer_done = 1', ['WRITE(0)', 'WRITE(1)'],
+    '{ vf_check(ap->_queue.size()==2, 3); uint64_t m = 0; for (int i = 0; i < 2; ++i) { auto& it = ap->_queue._slots.value(i); vf_check(it.file == &fo && it.entry.size == 2, 3); m |= (it.entry.pages[0] == ent[0].pages[0] ? 1 : 0) | (it.entry.pages[0] == ent[1].pages[0] ? 2 : 0); } vf_check(m == 3, 3); } nfree = nalloc',
+    tiers=('quick', 'thorough'), timeout=None, opts={}, qcap_=2)
 apx('one_writer', 'ent[0] = make("ab", 2); ent[1] = make("cd", 2)', ['WRITE(0);WRITE(1);CLOSE_MARK()', 'WRITER()'],
     'vf_check(nfile==4 && filebuf[0]==97 && filebuf[1]==98 && filebuf[2]==99 && filebuf[3]==100, 1)')
 apx('two_writers', 'ent[0] = make("ab", 2); ent[1] = make("cd", 2)', ['WRITE(0);SIGNAL(0)', 'WRITE(1);SIGNAL(1)', 'AWAIT(0);AWAIT(1);CLOSE_MARK()', 'WRITER()'],
@@ -168,6 +172,8 @@ hs('sized16_le6', 6, 'Set(16)')
 hs('default_exact34', 34, exact=True)
 hs('sized16_exact34', 34, 'Set(16)', exact=True)
 hs('sized4_le6', 6, 'Set(4)')
+S('hs_probe_two_full_groups', 'hashset/hs_probe.cpp', {'assert': 'C18'}, extra=HSX, models=['sc'], bound=100, defs=['VF_FULL_GROUPS=2'])
+S('hs_probe_three_full_groups', 'hashset/hs_probe.cpp', {'assert': 'C18'}, extra=HSX, models=['sc'], bound=100, defs=['VF_FULL_GROUPS=3'])
 hs('default_le36', 36, tiers=('thorough',), timeout=7200)
 hs('sized16_le36', 36, 'Set(16)', tiers=('thorough',), timeout=7200)
 
@@ -193,6 +199,8 @@ fx('wake_one_vs_cancel', 'make_waiter(0,0); make_waiter(1,0)', ['CANCEL(1)', 'WA
    'vf_check(resumed[1]==1 && resumed[0]<=1, 2); vf_check(ret[1]==1 && resumed[0]+resumed[1]==2 || (ret[0]==0), 3)')
 fx('wake_all_vs_cancel', 'make_waiter(0,0); make_waiter(1,0)', ['CANCEL(0)', 'WAKE_ALL()'], 'vf_check(resumed[0]==1 && resumed[1]==1, 2); vf_check(ret[0]+ret[1]==2, 2)')
 fx('wake_all_vs_new_waiter', 'make_waiter(0,0); make_waiter(1,0)', ['WAKE_ALL()', 'NEW_WAITER(2)'], 'vf_check(resumed[0]==1 && resumed[1]==1 && resumed[2]<=1, 5)')
+fx('value_change_vs_new_waiter', '(void)0', ['NEW_WAITER(0)', 'fx->atomic_value().store(1, std::memory_order_release);WAKE_ALL()'], 'vf_check(suspended[0]==0 || resumed[0]==1, 6); vf_check(resumed[0]<=1, 2)')
+fx('value_change_vs_second_waiter', 'make_waiter(1,0)', ['NEW_WAITER(0)', 'fx->atomic_value().store(1, std::memory_order_release);WAKE_ONE();WAKE_ONE()'], 'vf_check(resumed[1]==1 && (suspended[0]==0 || resumed[0]==1), 6)')
 fx('two_wake_one', 'make_waiter(0,0); make_waiter(1,0)', ['WAKE_ONE()', 'WAKE_ONE()'], 'vf_check(resumed[0]==1 && resumed[1]==1 && ret[0]==1 && ret[1]==1, 2)')
 
 # ----------------------------------------------------------------------------------------------- C17: page allocators / object pool
@@ -240,6 +248,8 @@ def ser(name, defs, **kw):
 ser('roundtrip_u64', ['VF_ROUNDTRIP=1', 'VF_SHAPE=0'])
 ser('roundtrip_i32_bool', ['VF_ROUNDTRIP=1', 'VF_SHAPE=1'])
 ser('roundtrip_nested', ['VF_ROUNDTRIP=1', 'VF_SHAPE=2'])
+ser('unknown_field_u64', ['VF_UNKNOWN=1', 'VF_SHAPE=0'])
+ser('unknown_field_nested', ['VF_UNKNOWN=1', 'VF_SHAPE=2'])
 ser('hostile_len4_u64', ['VF_INLEN=4', 'VF_SHAPE=0'], opts={'oob': '1'})
 ser('hostile_len4_nested', ['VF_INLEN=4', 'VF_SHAPE=2'], opts={'oob': '1'})
 ser('hostile_len3_all', ['VF_INLEN=3', 'VF_SHAPE=3'], opts={'oob': '1'})
